@@ -8,6 +8,7 @@ import (
 	"net"
 	"strconv"
 	"strings"
+	"syscall"
 	"time"
 )
 
@@ -58,6 +59,38 @@ func Dial(addr string) (*Client, error) {
 		return nil, err
 	}
 	return &Client{Conn: c, Timeout: 10 * time.Second}, nil
+}
+
+// DialFrom connects from a given local port (address reuse: a new connection with the source address
+// of an earlier one).
+func DialFrom(addr string, localPort int) (*Client, error) {
+	d := net.Dialer{Timeout: 5 * time.Second, LocalAddr: &net.TCPAddr{IP: net.IPv4(127, 0, 0, 1), Port: localPort},
+		Control: func(network, address string, c syscall.RawConn) error {
+			var serr error
+			c.Control(func(fd uintptr) { serr = syscall.SetsockoptInt(int(fd), syscall.SOL_SOCKET, syscall.SO_REUSEADDR, 1) })
+			return serr
+		}}
+	c, err := d.Dial("tcp", addr)
+	if err != nil {
+		return nil, err
+	}
+	return &Client{Conn: c, Timeout: 10 * time.Second}, nil
+}
+
+// LocalPort returns the local TCP port of the connection.
+func (c *Client) LocalPort() int {
+	if a, ok := c.Conn.LocalAddr().(*net.TCPAddr); ok {
+		return a.Port
+	}
+	return 0
+}
+
+// Reset closes the connection abruptly (RST instead of an orderly shutdown).
+func (c *Client) Reset() {
+	if tc, ok := c.Conn.(*net.TCPConn); ok {
+		tc.SetLinger(0)
+	}
+	c.Conn.Close()
 }
 
 // Secure switches the connection to the encrypted session derived from shared.
